@@ -1,6 +1,7 @@
 package main
 
 import (
+	"crypto/sha256"
 	"sync"
 	"runtime"
 	"bytes"
@@ -158,6 +159,31 @@ func runC04(o *out, thorough bool, r *rng, _ []string) map[string]interface{} {
 		o.count(fmt.Sprintf("before:%d", nb))
 		o.count(fmt.Sprintf("after:%d", na))
 		checkCase(o, r, 6, data, key, "signed-right-key")
+		// the same verdict when the check is called from a ForEach callback whose view still contains the attribute
+		if dm := new(stun.Message); stun.Decode(data, dm) == nil {
+			direct := stun.MessageIntegrity(key).Check(dm) == nil
+			for vi, a := range dm.Attributes {
+				if a.Type == stun.AttrMessageIntegrity {
+					break
+				}
+				if vi > 3 {
+					break
+				}
+				inside, seen := direct, false
+				_ = dm.ForEach(a.Type, func(mm *stun.Message) error {
+					if !seen {
+						seen = true
+						inside = stun.MessageIntegrity(key).Check(mm) == nil
+					}
+					return nil
+				})
+				if inside != direct {
+					o.failFor("C04", "check-depends-on-the-caller", fmt.Sprintf("701 %s - 6,8 %s (inside a ForEach(%#x) callback: %v, directly: %v)", fHex(data), fHex(key), int(a.Type), inside, direct))
+					break
+				}
+			}
+			o.count("checks-inside-foreach")
+		}
 		// wrong keys
 		checkCase(o, r, 6, data, append(append([]byte(nil), key...), 0), "wrong-key")
 		checkCase(o, r, 6, data, r.bytes(len(key)+1), "wrong-key")
@@ -266,8 +292,52 @@ func runC04(o *out, thorough bool, r *rng, _ []string) map[string]interface{} {
 		o.count("mi-after-fp-not-last")
 	}
 	// explicit 401 cases with format verbs and separators in the credentials
-	for _, c := range [][3]string{{"%s", "realm", "pass"}, {"user", "%d%%", "p"}, {"a:b", "c", "d"}, {"u", "r", "%!x(MISSING)"}, {"%v%v", "%", "%%"}, {"", "", ""}} {
+	for _, c := range [][3]string{{"%s", "realm", "pass"}, {"user", "%d%%", "p"}, {"a:b", "c", "d"}, {"u", "r", "%!x(MISSING)"}, {"%v%v", "%", "%%"}, {"", "", ""},
+		// code points that SASLprep would map away or replace (the key is MD5 of the bytes as given: preparing them is the caller's
+		// business), the unprepared RFC 5769 password, NFKC-sensitive letters, a BOM, invalid UTF-8
+		{"us\u00ader", "re\u00a0alm", "pa\u200bss"}, {"\ufeffuser", "realm\u3000", "The\u00adM\u00aatr\u2168"}, {"\u2168", "\ufb01", "\u1e9b\u0323"},
+		{"user", "example.org", "\xff\xfe"}, {"\u30de\u30c8\u30ea\u30c3\u30af\u30b9", "example.org", "The\u00adM\u00aatr\u2168"}} {
 		o.run(401, []string{fHex([]byte(c[0])), fHex([]byte(c[1])), fHex([]byte(c[2]))}, true)
+		// short-term credentials: the key is the password, byte for byte
+		if k := stun.NewShortTermIntegrity(c[2]); string(k) != c[2] {
+			o.fail("short-term-key-is-not-the-password", "401 "+fHex([]byte(c[0]))+" "+fHex([]byte(c[1]))+" "+fHex([]byte(c[2])))
+		}
+	}
+	// MACs that some other specification or a sloppy implementation would compute over the same message: all
+	// wrong under RFC 5389, whatever they resemble
+	for i := 0; i < 40; i++ {
+		key := r.bytes(r.pick([]int{1, 16, 20, 40}))
+		data := signedMessage(r, key, r.intn(6), r.intn(3), true, i%2 == 0)
+		off := 20
+		for off+4 <= len(data) && !(data[off] == 0 && data[off+1] == 8) {
+			off += 4 + pad4(int(data[off+2])<<8|int(data[off+3]))
+		}
+		if off+24 > len(data) {
+			continue
+		}
+		text := append([]byte(nil), data[:off]...)
+		nl := off - 20 + 24
+		text[2], text[3] = byte(nl>>8), byte(nl)
+		mac := func(k, t []byte) []byte { h := hmac.New(sha1.New, k); h.Write(t); return h.Sum(nil) }
+		padded := append(append([]byte(nil), text...), make([]byte, (64-len(text)%64)%64)...)
+		alts := [][]byte{
+			mac(key, padded),                       // RFC 3489: text padded with zeroes to a multiple of 64
+			mac(key, data[:off]),                   // header length not adjusted
+			mac(key, data[20:off]),                 // without the header
+			mac(key, append(text, data[off:off+4]...)), // including the attribute's own header
+			mac(append(append([]byte(nil), key...), 0), text),
+		}
+		h256 := hmac.New(sha256.New, key)
+		h256.Write(text)
+		alts = append(alts, h256.Sum(nil)[:20])
+		for _, alt := range alts {
+			if bytes.Equal(alt, data[off+4:off+24]) {
+				continue
+			}
+			d := append([]byte(nil), data...)
+			copy(d[off+4:off+24], alt)
+			checkCase(o, r, 6, d, key, "plausible-but-wrong-mac")
+		}
 	}
 	return nil
 }
@@ -329,6 +399,17 @@ func runC05(o *out, thorough bool, r *rng, _ []string) map[string]interface{} {
 		nmsg = 600
 	}
 	concurrentFingerprints(o, map[bool]int{false: 300, true: 3000}[thorough])
+	// attribute bytes beyond what the 16-bit length field can say (Add has no limit): whatever the header then
+	// says, the fingerprint is computed over the bytes that are there, as the model does
+	for _, sizes := range [][]int{{65532}, {65536}, {40000, 30000}, {65528, 8}} {
+		ops := []string{numsField(1, 1), numsField(1, 1, 0)}
+		for _, l := range sizes {
+			ops = append(ops, withBytes([]int{4, 0x0013}, r.bytes(l)))
+		}
+		ops = append(ops, "7,"+numsField(11))
+		o.run(301, append([]string{"0", "-", "-"}, ops...), true)
+		o.count("fingerprint-over-huge-bodies")
+	}
 	// FINGERPRINT (and MESSAGE-INTEGRITY) added to a Message that has no header bytes yet: a new one, one that
 	// was Reset, one whose buffer is shorter than a header, one that holds only a header
 	for _, st := range [][]string{{"0", "-", "-"}, {"20", fHex(make([]byte, 120)), "-"}, {"7", fHex(bytes.Repeat([]byte{0xEE}, 64)), "-"},
@@ -345,6 +426,43 @@ func runC05(o *out, thorough bool, r *rng, _ []string) map[string]interface{} {
 		key := r.bytes(r.intn(30))
 		data := signedMessage(r, key, r.intn(5), 0, i%2 == 0, true)
 		checkCase(o, r, 7, data, nil, "fingerprinted")
+		if _, ok := rfcFingerprintVerdict(data); ok {
+			// values that a draft, another checksum or a slip of the pen would put there: all wrong
+			n := len(data)
+			crc := crc32.ChecksumIEEE(data[:n-8])
+			put := func(v uint32) []byte {
+				d := append([]byte(nil), data...)
+				d[n-4], d[n-3], d[n-2], d[n-1] = byte(v>>24), byte(v>>16), byte(v>>8), byte(v)
+				return d
+			}
+			le := crc ^ 0x5354554e
+			for _, v := range []uint32{crc, crc ^ 0x4e555453, ^(crc ^ 0x5354554e), crc32.ChecksumIEEE(data[:n-4]) ^ 0x5354554e, crc32.ChecksumIEEE(data[20:n-8]) ^ 0x5354554e,
+				crc32.Checksum(data[:n-8], crc32.MakeTable(crc32.Castagnoli)) ^ 0x5354554e, le<<24 | (le>>8&0xff)<<16 | (le>>16&0xff)<<8 | le>>24, 0x5354554e, 0, crc ^ 0x2112a442} {
+				if v != crc^0x5354554e {
+					checkCase(o, r, 7, put(v), nil, "plausible-but-wrong-fingerprint")
+				}
+			}
+			// the same verdict from inside a ForEach callback whose view still contains the FINGERPRINT
+			if dm := new(stun.Message); stun.Decode(data, dm) == nil {
+				for vi, a := range dm.Attributes {
+					if a.Type == stun.AttrFingerprint || vi > 3 {
+						break
+					}
+					inside, seen := true, false
+					_ = dm.ForEach(a.Type, func(mm *stun.Message) error {
+						if !seen {
+							seen = true
+							inside = stun.Fingerprint.Check(mm) == nil
+						}
+						return nil
+					})
+					if !inside {
+						o.failFor("C05", "check-depends-on-the-caller", fmt.Sprintf("701 %s - 7,0 (inside a ForEach(%#x) callback the valid fingerprint is rejected)", fHex(data), int(a.Type)))
+						break
+					}
+				}
+			}
+		}
 		// bytes after the declared length (Decode tolerates them and keeps them in Raw): the verdict follows
 		// from the bytes the library hashes, whichever they are; both the untouched FINGERPRINT and one
 		// recomputed over Raw[:len-8] of the longer buffer are checked
